@@ -474,7 +474,78 @@ func init() {
 				}
 			}
 		}
+		// the cookie store: no lock, every concurrent request refreshes (or, refused by a rotating provider, re-validates) for itself
+		cw, err := vpNewWorld(&vpCfg{Store: "cookie", Refresh: 3600, Legacy: map[string]bool{"passAccessToken": true, "setXAuthRequest": true}})
+		if err != nil {
+			t.Fatalf("cookie world: %v", err)
+		}
+		defer cw.close()
+		for _, mode := range []string{"norotate", "ok"} {
+			for _, n := range sizes {
+				for k := 0; k < rounds; k++ {
+					id++
+					evs, err := vpRunCookieRefreshBehaviour(cw, mode, n)
+					if err != nil {
+						env.emit(vpOut{ID: id, Err: err.Error()})
+						continue
+					}
+					env.emit(vpOut{ID: id, Steps: evs, Obs: map[string]interface{}{"mode": mode, "n": n, "store": "cookie"}})
+				}
+			}
+		}
 	})
+}
+
+// vpRunCookieRefreshBehaviour: n truly concurrent requests presenting one stale session of the COOKIE store (self-contained credential, no
+// lock: every request refreshes for itself). Recorded: the provider's refresh grants / refusals and what each request was served with.
+func vpRunCookieRefreshBehaviour(w *vpWorld, mode string, n int) ([]map[string]interface{}, error) {
+	idp := w.idp
+	idp.mu.Lock()
+	idp.rotate, idp.refreshMode = mode != "norotate", "ok"
+	idp.mu.Unlock()
+	jar := vpNewJar()
+	if _, err := w.login(jar, "alice", ""); err != nil {
+		return nil, err
+	}
+	if err := w.ageSessionOpt(jar, 2*time.Hour, false); err != nil {
+		return nil, err
+	}
+	cookie := jar.header()
+	tr := &vpTraceRec{}
+	idp.onRefresh = func(ok bool, rt string) {
+		tr.add(map[string]interface{}{"kind": "refresh", "ok": ok, "gen": vpGenOfToken(rt), "r": 0})
+	}
+	defer func() { idp.onRefresh = nil }()
+	var wg sync.WaitGroup
+	release := make(chan struct{})
+	for r := 1; r <= n; r++ {
+		wg.Add(1)
+		go func(r int) {
+			defer wg.Done()
+			<-release
+			target := "/private"
+			authonly := r%2 == 0
+			if authonly {
+				target = w.prefix() + "/auth"
+			}
+			resp := w.do(vpReq{Target: target, Cookie: cookie})
+			gen := -1
+			served := resp.UpHits > 0
+			if authonly {
+				served = resp.Status == 202
+				if served {
+					gen = vpGenOfToken(resp.Header.Get("X-Auth-Request-Access-Token"))
+				}
+			} else if resp.UpLast != nil {
+				gen = vpGenOfToken(resp.UpLast.Header.Get("X-Forwarded-Access-Token"))
+			}
+			tr.add(map[string]interface{}{"kind": "done", "r": r, "ok": served, "gen": gen, "status": resp.Status,
+				"cleared": w.sessionCookieEffect(resp) == "cleared", "panic": resp.Panic != ""})
+		}(r)
+	}
+	close(release)
+	wg.Wait()
+	return tr.events, nil
 }
 
 var vpBehaviourSeq int64
